@@ -2,6 +2,8 @@
    every entry on which the definition generated from the C source differs from the hand-written model.
    Run: lake env lean --run Gen/TableDiff.lean -/
 import LP.Gen.SignCondition
+import LP.Gen.IntervalCmp
+import LP.Gen.IcmpModel
 import LP.Model.Feasible
 import LP.Model.IntervalPoly
 open LP
@@ -30,4 +32,18 @@ def main : IO Unit := do
               let g := Gen.consistentInterval c ((if pt then 1 else 0)) sa sb ((if ao then 1 else 0)) ((if bo then 1 else 0))
               if (g != 0) != VI.consistentInterval c I then
                 IO.println s!"MISMATCH lp_sign_condition_consistent_interval({condName c}, is_point={pt}, sgn(a)={sa}, sgn(b)={sb}, a_open={ao}, b_open={bo}) = {g} in the C source, model {VI.consistentInterval c I}"; n := n + 1
+  if Gen.icmpEnumValues ≠ [0, 1, 2, 3, 4, 5, 6, 7, 8] then
+    IO.println s!"MISMATCH lp_interval_cmp_t values {Gen.icmpEnumValues} (model assumes 0..8)"; n := n + 1
+  for cu in [(-1 : Int), 0, 1] do
+    for cl in [(-1 : Int), 0, 1] do
+      for x in [(-1 : Int), 0, 1] do
+        for z in [(-1 : Int), 0, 1] do
+          for a1 in [false, true] do
+            for b1 in [false, true] do
+              for a2 in [false, true] do
+                for b2 in [false, true] do
+                  let g := Gen.intervalCmp cu cl x z (if a1 then 1 else 0) (if b1 then 1 else 0) (if a2 then 1 else 0) (if b2 then 1 else 0)
+                  let w := Gen.icmpCode (Gen.cwiClass cu cl x z a1 b1 a2 b2)
+                  if g ≠ w then
+                    IO.println s!"MISMATCH lp_interval_cmp_with_intersect: cmp_ub={cu} cmp_lb={cl} cmp(I1.ub,I2.lb)={x} cmp(I1.lb,I2.ub)={z} I1=({a1},{b1}) I2=({a2},{b2}) gives {g} in the C source, model {w}"; n := n + 1
   IO.println s!"#mismatches {n}"
